@@ -236,10 +236,14 @@ impl Directive {
                     _ => SegmentType::Code,
                 };
 
-                if !context.last_segment().unwrap().borrow().is_empty() {
+                let last_segment = context.last_segment().unwrap();
+                // empty segment with address is result of .org, it must stay with own type
+                let in_use =
+                    !last_segment.borrow().is_empty() || last_segment.borrow().address != 0;
+                if in_use {
                     context.add_segment(Segment::new(new_type));
                 } else {
-                    context.last_segment().unwrap().borrow_mut().t = new_type;
+                    last_segment.borrow_mut().t = new_type;
                 }
             }
             Directive::Device => {
